@@ -1,7 +1,9 @@
 (* C11 -- separate-process mode contains every way a test can die.
    Executable mirror of src/Platforms/Gcc/UtestPlatform.cpp (SetTestFailureByStatusCode,
-   GccPlatformSpecificRunTestInASeperateProcess), of the choice made by UtestShell::runOneTest and of the loop of
-   TestRegistry::runAllTests, as far as the property reads them.  No proofs in this file.
+   GccPlatformSpecificRunTestInASeperateProcess), of the choice made by UtestShell::runOneTest, of
+   IgnoredUtestShell::runOneTest (IGNORE_TEST, run only under the registry-wide run-ignored switch) and of the loop of
+   TestRegistry::runAllTests with TestResult's run / ignored counters and isFailure, as far as the property reads them.
+   No proofs in this file.
 
    Trusted, stated here:  (a) the bit layout of a wait-status word (Linux/glibc ABI: `encode`);
    (b) the default action of signals 1..31 (signal(7): `disposition`);  (c) Utest::run's phase structure (a failing
@@ -200,8 +202,11 @@ Inductive test :=
 | TScripted (fork_ok : bool) (ws : list sout)    (* fork and waitpid replaced by stubs replaying these outcomes; after the
                                                     listed outcomes the stub reports a clean exit *)
 | TReal (p : prog) (inject : list inj).          (* a real child *)
+(* a registered test: IGNORE_TEST (an IgnoredUtestShell) or TEST *)
+Record tcase := { c_ign : bool; c_test : test }.
 Record scenario := { s_all_sep : bool;           (* registry-wide flag (-p): every test, also TPlain, gets a child *)
-                     s_tests : list test }.
+                     s_run_ign : bool;           (* registry-wide run-ignored switch (-ri) *)
+                     s_tests : list tcase }.
 
 (* default action of signals 1..31 (Linux, signal(7)); stop signals stop because the harness keeps the process group
    from being orphaned *)
@@ -277,7 +282,7 @@ Record item := { i_started : bool;            (* the test was started (real chil
                  i_calls : nat;               (* waitpid calls made for it *)
                  i_conts : nat;               (* SIGCONT sent for it (scripted tests: counted; real tests: 0, not observable) *)
                  i_lost : bool }.             (* a real child was left unreaped when the runner returned *)
-Record obs := { o_items : list item; o_total : N; o_failed : bool; o_run : N; o_late : bool }.
+Record obs := { o_items : list item; o_total : N; o_failed : bool; o_run : N; o_ign : N; o_late : bool }.
 
 Definition plain_prog (f : bool) : prog :=
   {| p_pre := []; p_setup := []; p_body := if f then [AFail] else []; p_teardown := []; p_post := [] |}.
@@ -302,21 +307,37 @@ Definition run_test (all_sep : bool) (count : N) (t : test) : item :=
   | TReal p inject => run_real count p inject
   end.
 
+(* IgnoredUtestShell::runOneTest: if (runIgnored_) { UtestShell::runOneTest(plugin, result); return; } result.countIgnored();
+   runIgnored_ is set by TestRegistry::runAllTests (`if (runIgnored_) test->setRunIgnored();`, a no-op on a plain shell) right
+   after `if (runInSeperateProcess_) test->setRunInSeperateProcess();`, for every test, before it is looked at. *)
+Definition skipped (run_ign : bool) (tc : tcase) : bool := c_ign tc && negb run_ign.
+Definition skip_item : item := {| i_started := false; i_fails := []; i_calls := 0; i_conts := 0; i_lost := false |}.
+Definition run_case (all_sep run_ign : bool) (count : N) (tc : tcase) : item :=
+  if c_ign tc then (if run_ign then run_test all_sep count (c_test tc) else skip_item)
+  else run_test all_sep count (c_test tc).
+
 (* TestRegistry::runAllTests: every test in turn, whatever happened to the earlier ones *)
-Fixpoint run_tests (all_sep : bool) (count : N) (ts : list test) : list item * N :=
+Fixpoint run_tests (all_sep run_ign : bool) (count : N) (ts : list tcase) : list item * N :=
   match ts with
   | [] => ([], count)
-  | t :: tl => let it := run_test all_sep count t in
-               let (its, c) := run_tests all_sep (count + N.of_nat (length (i_fails it))) tl in
+  | t :: tl => let it := run_case all_sep run_ign count t in
+               let (its, c) := run_tests all_sep run_ign (count + N.of_nat (length (i_fails it))) tl in
                (it :: its, c)
   end.
 
+(* TestResult::countRun (UtestShell::runOneTest) and TestResult::countIgnored, as the loop meets the tests *)
+Fixpoint count_cases (run_ign : bool) (nrun nign : N) (ts : list tcase) : N * N :=
+  match ts with
+  | [] => (nrun, nign)
+  | t :: tl => if skipped run_ign t then count_cases run_ign nrun (nign + 1) tl else count_cases run_ign (nrun + 1) nign tl
+  end.
+
 Definition run (s : scenario) : obs :=
-  let (its, total) := run_tests (s_all_sep s) 0 (s_tests s) in
-  let nrun := N.of_nat (length (s_tests s)) in
+  let (its, total) := run_tests (s_all_sep s) (s_run_ign s) 0 (s_tests s) in
+  let (nrun, nign) := count_cases (s_run_ign s) 0 0 (s_tests s) in
   {| o_items := its; o_total := total;
-     o_failed := negb (total =? 0) || (nrun =? 0);     (* TestResult::isFailure, nothing ignored *)
-     o_run := nrun; o_late := false |}.
+     o_failed := negb (total =? 0) || (nrun + nign =? 0);     (* TestResult::isFailure *)
+     o_run := nrun; o_ign := nign; o_late := false |}.
 
 (* ------------------------------------------------------------------------------------------------------------------
    6. validity and the property as an oracle on observations
@@ -329,8 +350,9 @@ Definition prog_ok (p : prog) : bool :=
   forallb act_ok (p_teardown p) && forallb act_ok (p_post p).
 Definition test_ok (t : test) : bool :=
   match t with TPlain _ => true | TScripted _ ws => forallb sout_ok ws | TReal p _ => prog_ok p end.
+Definition case_ok (tc : tcase) : bool := test_ok (c_test tc).
 Definition valid (s : scenario) : bool :=
-  negb (match s_tests s with [] => true | _ => false end) && forallb test_ok (s_tests s).
+  negb (match s_tests s with [] => true | _ => false end) && forallb case_ok (s_tests s).
 
 (* number of interrupted waits that are retried: the (tolerated+1)-th EINTR makes the runner give up *)
 Definition tolerated : nat := N.to_nat (if eintr_bound_strict then eintr_bound + 1 else eintr_bound).
@@ -386,20 +408,29 @@ Definition item_ok (all_sep : bool) (t : test) (it : item) : bool :=
   i_started it && (length (i_fails it) =? f)%nat && (i_calls it =? c)%nat &&
   (if reaped then negb (i_lost it) else true).
 
-Fixpoint items_ok (all_sep : bool) (ts : list test) (its : list item) : bool :=
+(* an IGNORE_TEST without the run-ignored switch is not run: not started (no child asked for, no action point reached), no
+   failure, no wait; with the switch it is held to exactly what the same test not marked ignored is held to *)
+Definition case_item_ok (all_sep run_ign : bool) (tc : tcase) (it : item) : bool :=
+  if skipped run_ign tc
+  then negb (i_started it) && (length (i_fails it) =? 0)%nat && (i_calls it =? 0)%nat && negb (i_lost it)
+  else item_ok all_sep (c_test tc) it.
+
+Fixpoint items_ok (all_sep run_ign : bool) (ts : list tcase) (its : list item) : bool :=
   match ts, its with
   | [], [] => true
-  | t :: tl, it :: itl => item_ok all_sep t it && items_ok all_sep tl itl
+  | t :: tl, it :: itl => case_item_ok all_sep run_ign t it && items_ok all_sep run_ign tl itl
   | _, _ => false
   end.
 
 Definition total_fails (its : list item) : N := N.of_nat (fold_right (fun it a => (length (i_fails it) + a)%nat) 0%nat its).
 
 (* every test accounted for exactly (so every later test ran), the parent's count is the sum, the run is reported
-   failed exactly when something failed, all tests were run, and the parent met its deadline *)
+   failed exactly when something failed, every test that was to run is counted as run and every other one as ignored,
+   and the parent met its deadline *)
 Definition spec (s : scenario) (o : obs) : bool :=
-  items_ok (s_all_sep s) (s_tests s) (o_items o) &&
+  items_ok (s_all_sep s) (s_run_ign s) (s_tests s) (o_items o) &&
   (o_total o =? total_fails (o_items o)) &&
   Bool.eqb (o_failed o) (negb (o_total o =? 0)) &&
-  (o_run o =? N.of_nat (length (s_tests s))) &&
+  (o_run o =? N.of_nat (length (filter (fun tc => negb (skipped (s_run_ign s) tc)) (s_tests s)))) &&
+  (o_ign o =? N.of_nat (length (filter (skipped (s_run_ign s)) (s_tests s)))) &&
   negb (o_late o).
